@@ -18,6 +18,7 @@ def run(ctx):
     runlib.lean_part(ctx, "RootSim.Props.PrefixUnique", THEOREMS_D)
     # glue (E): every reachable state of the abstract global Time Warp machine satisfies Hist (Props/C01Glue.lean)
     runlib.lean_part(ctx, "RootSim.Props.C01Glue", ['RootSim.C01Glue.reachable_hist','RootSim.C01Glue.tw_schedule_independent','RootSim.C01Glue.tw_quiescent_final'])
+    runlib.lean_part(ctx, "RootSim.Props.C01GlueV2", ['RootSim.C01GlueV2.tw_schedule_independent_V2'])
     if not runlib.build(ctx):
         return
     # metamorphic matrix: the SAME model+seed under different (threads, ckpt, period, schedule); all final states must be equal
